@@ -1702,7 +1702,14 @@ class DocutilsRenderer(RendererProtocol):
         # pad the line numbers artificially so they offset with the fence block
         pseudosource = ("\n" * token_line(token)) + token.content
         # actually parse the rst into our document
-        MockRSTParser().parse(pseudosource, newdoc)
+        # (if the shared reporter has no `get_source_and_line`, the rST state machine
+        # installs its own, which must not outlive the parse of this block)
+        has_line_func = hasattr(self.reporter, "get_source_and_line")
+        try:
+            MockRSTParser().parse(pseudosource, newdoc)
+        finally:
+            if not has_line_func and hasattr(self.reporter, "get_source_and_line"):
+                del self.reporter.get_source_and_line
         for node in newdoc:
             if node["names"]:
                 self.document.note_explicit_target(node, node)
